@@ -49,6 +49,18 @@ CHECKS = {
             "Generated files in ascii/utf-8/utf-8-sig/utf-16 LE,BE/latin-1 with LF/CRLF/CR/mixed newlines, undecodable bytes and trailing-newline variants are fixed for real; TLC validates that text and bytes outside the ranges the applied fixes edit come back unchanged (undecodable bytes as the same bytes), the BOM is kept, and a file without effective change keeps inode, mtime and bytes.",
             "Exploration; newline normalisation is applied to both sides before comparison as the statement says. Known finding: undecodable bytes are written back as escape text (F14). Notes: notes/C11.md.",
             "DESIGN.md §5 C11"),
+    "C24": (MC, "TLA+ model of the runners (spec/Runner.tla: serial, imap_unordered process pool, imap thread pool; worker Take/Read/Finish, main Skip/Drop/Add/Persist) model-checked over all interleavings; code->spec validation (spec/RunnerTrace.tla) of hook event traces and outcomes of real multi-process / multi-thread runs; completion orders emitted by TLC drive per-file delay plans",
+            "TLC shows that per-file records, written files, skip count and exit status do not depend on pool size, completion order or path order for <= 4 files; real runs with processes in {1,2,4}, permuted paths, delay plans, lint and fix(apply) on generated directories are recorded through the guarded hook in runner.py and validated event by event (each file taken, finished, consumed once; persist only in the main process after the add) and against the serial baseline.",
+            "Needs the SQLFLUFF_VERIF hook commit for the worker-side events (without it only main-side events and outcomes are validated; evidence says which). Delays only bias the order: every observed order is validated, none is required. Notes: notes/C24.md.",
+            "DESIGN.md §5 C24"),
+    "C08": (MC, "TLA+ contract of rendering (spec/Render.tla part jj: skeleton space, fast-path condition) + spec/RenderTrace.tla; TLC-enumerated Jinja skeletons rendered by the real templater and by an independently built jinja2 environment; corpus and fixture files",
+            "Every balanced skeleton <= 5 fragments over 14 fragment kinds (and <= 3 over all 22) is rendered through the real JinjaTemplater and the reference environment; TLC requires rendered = reference, the fast path only for marker-free sources and then rendered = source; fixture files with their own contexts/macros, CRLF and trailing-newline variants and undefined variables are validated the same way.",
+            "The reference is jinja2 itself (trusted). Undefined-variable rendering is only checked for the presence of a TMP violation. Notes: notes/C08.md.",
+            "DESIGN.md §5 C08"),
+    "C09": (MC, "TLA+ contract state machine for python format strings and for every placeholder style (spec/Render.tla parts py, ph), cross-checked against string.Formatter; TLC enumerates all strings to length 6-7 over the character classes x styles; spec->code replay through the real PythonTemplater / PlaceholderTemplater; RenderTrace for longer generated strings",
+            "All strings <= 6 over 7 classes (and <= 7 over 5) are rendered by the real python templater: valid strings must render to the contract's text without a TMP violation, invalid ones must give a TMP violation and nothing else may escape; all strings <= 4-5 over the parameter alphabet x the 12 placeholder styles must render with each matched parameter replaced, and the produced slices must reproduce the rendering.",
+            "The spec's format-string grammar agrees with string.Formatter on all enumerated strings (a disagreement is a machinery failure). Known findings: escaped braces / conversions / greedy spec in the dot rewrite, empty format spec. Notes: notes/C09.md.",
+            "DESIGN.md §5 C09"),
     "C20": (MC, "TLA+ contract + transcription of IgnoreMask (spec/Noqa.tla), TLC exhaustive; spec->code replay of every enumerated case; code->spec trace validation of generated files (NoqaTrace)",
             "TLC shows the transcribed masking algorithm refines the noqa contract for every directive list/violation set in scope, every such case is replayed into the real IgnoreMask, and recorded lint runs of generated files (all reference forms, tree and source-fallback masks, disable_noqa) are validated against the same contract.",
             "Scope: 3 lines, <=2 (quick) / <=3 (thorough) directives, <=2 violations, codes {A,B,PRS}. Trusted: object builders, file concretiser, code mapping LT01/CP01/PRS. `used` of enable directives and of several directives hiding the same violation is left unconstrained (ambiguous in the statement).",
